@@ -44,12 +44,13 @@ NoFail == <<99, "none">>
 VARIABLES step, net, rec,       \* the object
           pc, target,           \* call in progress
           fail, fired,          \* transient failure: where, and whether it has fired
+          stale,                \* fixed-end methods: records left behind by a failed call (deviation RecordBeforeEval)
           pre,                  \* tebd: steps with a pre control
           origin,               \* tebd: start step of the current (possibly restarted) object
           restarted,            \* tebd: the current object was built from an exported chain state
           hist                  \* history of API calls with outcomes (observation)
 
-vars == <<step, net, rec, pc, target, fail, fired, pre, origin, restarted, hist>>
+vars == <<step, net, rec, pc, target, fail, fired, pre, origin, restarted, hist, stale>>
 
 U(k)    == <<"U", k>>
 PreE(k) == <<"pre", k>>
@@ -74,7 +75,7 @@ RecCanon(r) ==
 \* outcome of an API call as the caller can observe it; `canon`: the object is in the canonical state
 \* after the call (used to tell on which histories a deviation shows)
 Outcome(op, tgt, raised) ==
-    [ op |-> op, target |-> tgt, raised |-> raised, step |-> step', nrec |-> Len(rec'),
+    [ op |-> op, target |-> tgt, raised |-> raised, step |-> step', nrec |-> Len(rec') + stale,
       canon |-> (step' < 0 \/ (net' = Canon(step') /\ RecCanon(rec'))) ]
 
 (***************************************************************************)
@@ -93,7 +94,7 @@ Begin(tgt) ==
                             THEN net \o << PreE(origin) >> ELSE net)
             /\ rec' = << [label |-> origin, content |-> net'] >>
        ELSE UNCHANGED <<step, net, rec>>
-    /\ UNCHANGED <<fail, fired, pre, origin, restarted, hist>>
+    /\ UNCHANGED <<fail, fired, pre, origin, restarted, hist, stale>>
 
 \* one loop iteration that succeeds
 IterOk ==
@@ -102,7 +103,7 @@ IterOk ==
     /\ step' = step + 1
     /\ net' = net \o << U(step + 1) >> \o (IF Kind = "tebd" /\ (step + 1) \in pre THEN << PreE(step + 1) >> ELSE << >>)
     /\ rec' = Append(rec, [label |-> step + 1, content |-> net'])
-    /\ UNCHANGED <<pc, target, fail, fired, pre, origin, restarted, hist>>
+    /\ UNCHANGED <<pc, target, fail, fired, pre, origin, restarted, hist, stale>>
 
 \* one loop iteration in which the user callable raises: the call is aborted
 IterFail ==
@@ -118,25 +119,25 @@ IterFail ==
            THEN net' = net \o << U(step + 1) >> /\ UNCHANGED <<step, rec>>   \* networks advanced, counter not
            ELSE UNCHANGED <<step, net, rec>>
         /\ hist' = Append(hist, Outcome("compute", target, TRUE))
-    /\ UNCHANGED <<target, fail, pre, origin, restarted>>
+    /\ UNCHANGED <<target, fail, pre, origin, restarted, stale>>
 
 End ==
     /\ pc = "run" /\ step >= target
     /\ pc' = "idle"
-    /\ UNCHANGED <<step, net, rec, target, fail, fired, pre, origin, restarted>>
+    /\ UNCHANGED <<step, net, rec, target, fail, fired, pre, origin, restarted, stale>>
     /\ hist' = Append(hist, Outcome("compute", target, FALSE))
 
 \* get_dynamics / get_results: pure observation
 Get ==
     /\ pc = "idle" /\ NCalls < MaxCalls /\ step >= 0
     /\ Kind \in {"tempo", "mf", "tebd"}
-    /\ UNCHANGED <<step, net, rec, pc, target, fail, fired, pre, origin, restarted>>
+    /\ UNCHANGED <<step, net, rec, pc, target, fail, fired, pre, origin, restarted, stale>>
     /\ hist' = Append(hist, Outcome("get", 0, FALSE))
 
 \* tebd: get_current_density_matrix(sites): pure observation of the current chain state
 Peek ==
     /\ pc = "idle" /\ NCalls < MaxCalls /\ step >= 0 /\ Kind = "tebd"
-    /\ UNCHANGED <<step, net, rec, pc, target, fail, fired, pre, origin, restarted>>
+    /\ UNCHANGED <<step, net, rec, pc, target, fail, fired, pre, origin, restarted, stale>>
     /\ hist' = Append(hist, Outcome("peek", 0, FALSE))
 
 \* tebd: export the chain state and step, build a new object from them
@@ -146,12 +147,13 @@ Restart ==
     /\ step' = -1
     /\ rec' = << >>
     /\ hist' = Append(hist, Outcome("restart", step, FALSE))
-    /\ UNCHANGED <<net, pc, target, fail, fired, pre>>
+    /\ UNCHANGED <<net, pc, target, fail, fired, pre, stale>>
 
 \* ---- fixed-end methods: ptt, gibbs ----------------------------------------
 \* compute(): run to the fixed end MaxStep (no user callables modelled)
 ComputeFixed ==
     /\ pc = "idle" /\ NCalls < MaxCalls /\ Kind \in {"ptt", "gibbs"}
+    /\ (step >= MaxStep \/ fail = NoFail \/ fired)          \* a pending failure fires in the first call that computes
     /\ IF step < MaxStep
        THEN /\ step' = MaxStep
             /\ net' = Canon(MaxStep)
@@ -167,29 +169,42 @@ ComputeFixed ==
                  /\ hist' = Append(hist, Outcome("compute", MaxStep, FALSE))
        ELSE /\ UNCHANGED <<step, net, rec>>
             /\ hist' = Append(hist, Outcome("compute", MaxStep, FALSE))
-    /\ UNCHANGED <<pc, target, fail, fired, pre, origin, restarted>>
+    /\ UNCHANGED <<pc, target, fail, fired, pre, origin, restarted, stale>>
+
+\* compute() of a fixed-end method during which the user's spectral density / correlation function raises once: the
+\* call fails and must leave the object such that the repeated call gives what an undisturbed one gives.
+\* Deviation "RecordBeforeEval": a state was recorded before the callable was evaluated and stays recorded.
+ComputeFixedFail ==
+    /\ pc = "idle" /\ NCalls < MaxCalls /\ Kind \in {"ptt", "gibbs"}
+    /\ ~fired /\ fail # NoFail /\ step < MaxStep
+    /\ fired' = TRUE
+    /\ stale' = IF "RecordBeforeEval" \in Devs THEN stale + 1 ELSE stale
+    /\ UNCHANGED <<step, net, rec>>
+    /\ hist' = Append(hist, [Outcome("compute", MaxStep, TRUE) EXCEPT !.nrec = stale'])
+    /\ UNCHANGED <<pc, target, fail, pre, origin, restarted>>
 
 \* get_process_tensor() / get_state(): computes if necessary, then observes
 GetFixed ==
     /\ pc = "idle" /\ NCalls < MaxCalls /\ Kind \in {"ptt", "gibbs"}
     /\ (Kind = "gibbs" => step >= 0)            \* GibbsTempo.get_state needs a computed object
+    /\ (step >= MaxStep \/ fail = NoFail \/ fired)
     /\ IF step < MaxStep
        THEN /\ step' = MaxStep /\ net' = Canon(MaxStep)
             /\ rec' = [ i \in 1..(MaxStep + 1) |-> [label |-> i - 1, content |-> Canon(i - 1)] ]
        ELSE UNCHANGED <<step, net, rec>>
     /\ hist' = Append(hist, Outcome("get", MaxStep, FALSE))
-    /\ UNCHANGED <<pc, target, fail, fired, pre, origin, restarted>>
+    /\ UNCHANGED <<pc, target, fail, fired, pre, origin, restarted, stale>>
 
 Init ==
     /\ step = -1 /\ net = << >> /\ rec = << >> /\ pc = "idle" /\ target = 0
-    /\ fail \in FailSet /\ fired = FALSE
+    /\ fail \in FailSet /\ fired = FALSE /\ stale = 0
     /\ pre \in PreSet /\ origin = 0 /\ restarted = FALSE
     /\ hist = << >>
 
 Next ==
     \/ \E t \in 0..MaxStep : Begin(t)
     \/ IterOk \/ IterFail \/ End \/ Get \/ Peek \/ Restart
-    \/ ComputeFixed \/ GetFixed
+    \/ ComputeFixed \/ GetFixed \/ ComputeFixedFail
 
 Spec == Init /\ [][Next]_vars
 
@@ -214,7 +229,8 @@ HistoryIndependent ==
 Idempotent ==
     (Kind \in {"ptt", "gibbs"}) =>
         /\ step <= MaxStep
-        /\ \A i \in 1..Len(hist) : ~hist[i].raised
+        /\ stale = 0
+        /\ Cardinality({ i \in 1..Len(hist) : hist[i].raised }) <= (IF fired THEN 1 ELSE 0)
 
 \* a call whose target has been reached changes nothing
 NoOpWhenReached ==
